@@ -230,11 +230,13 @@ class ExportSim(Sim):
         d = W.workdir('export-%d' % self.step)
         path = os.path.join(d, 'export.xml')
         # documented precondition: identifiers unique across the exported lexicons
+        # (across lexicons; an entry and a synset of ONE lexicon may be numbered alike)
         ids = []
         for sp in specs:
             ix = m.idx[sp]
-            ids += [m.docs[sp]['id']] + [e['id'] for e in ix.local_entries()] \
-                + [s['id'] for s, _ in ix.local_senses()] + [s['id'] for s in ix.local_synsets()]
+            ids += sorted({m.docs[sp]['id']} | {e['id'] for e in ix.local_entries()}
+                          | {s['id'] for s, _ in ix.local_senses()}
+                          | {s['id'] for s in ix.local_synsets()})
         clash = len(ids) != len(set(ids))
         W.begin_op(budget=self.budget * 5)
         _, exc = self.call(wn.export, lexs, path, version=v)
